@@ -395,7 +395,7 @@ def initial_cases(tier, seed):
         cases.append({"op": "composite", "layout": "He-5x14-l2", "fam": "VIJ", "plan": "spline", "interp": "onsite_direct", "threads": 3, "seed": seed})
         cases.append({"op": "composite", "layout": "He-5x14-l2", "fam": "VIJ", "plan": "gaussian", "interp": "train_gen", "threads": 1, "seed": seed})
     # 6. SDMX contractions
-    for mol, fam in itertools.product(["He", "HF", "H2O", "LiHgc", "Hed"] if not quick else ["HF", "H2O", "LiHgc", "Hed"], ["SDMX", "SDMX1", "SDMXG1", "SDMXFull"]):
+    for mol, fam in itertools.product(["He", "HF", "H2O", "LiHgc", "Hed", "LiHgcp"] if not quick else ["HF", "H2O", "LiHgc", "Hed", "LiHgcp"], ["SDMX", "SDMX1", "SDMXG1", "SDMXFull"]):
         for thr in (1, 3):
             if quick and thr == 3 and fam != "SDMXG1":
                 continue
